@@ -297,9 +297,22 @@ def assigned_names(stmts):
     return out
 
 
+def names_read(x):
+    out = set()
+    if isinstance(x, list) and x:
+        if x[0] == "v" and len(x) == 2 and isinstance(x[1], str):
+            out.add(x[1])
+        elif x[0] == "aug" and isinstance(x[1], str):
+            out.add(x[1])
+        for y in x:
+            out |= names_read(y)
+    return out
+
+
 class Renderer:
     def __init__(self, ref):
         self.ref = ref
+        self.else_reads_widened = False
 
     # ---- expressions: returns (src, type)
     def expr(self, e, env):  # noqa: C901
@@ -454,7 +467,11 @@ class Renderer:
                 return src, ["fixed", i, f]
             # user function: type supplied by env entry "fn:<name>"
             if ("fn:" + fn) in env:
-                return src, env["fn:" + fn]
+                rt = env["fn:" + fn]
+                if ref:
+                    # the callee's declared return type coerces (crops / zero-extends) its value
+                    src = f"_R({expand(rt) if is_tuple(rt) else rt!r}, {src})"
+                return src, rt
             raise GenTypeError(f"unknown function {fn}")
         raise GenTypeError(f"unknown expr {e}")
 
@@ -499,6 +516,12 @@ class Renderer:
                 if s[3]:
                     out.append(f"{pad}else:")
                     self.stmts(s[3], e2, ind + 1, out)
+                # known-finding probe: a variable widened by the then-branch and read by the else-branch
+                if s[3]:
+                    reads = names_read(s[3])
+                    for nm in reads:
+                        if nm in before and nm in e1 and is_int(before[nm]) and is_int(e1[nm]) and e1[nm][1] > before[nm][1]:
+                            self.else_reads_widened = True
                 for nm in sorted(set(e1) | set(e2)):
                     if nm.startswith("const:") or nm.startswith("fn:") or nm == "__ret__":
                         continue
@@ -568,6 +591,20 @@ def render(prog, ref=False, extra_env=None):
         lines = [f"def {prog['name']}({args}) -> {ann(prog['ret'])}:"]
     r.stmts(prog["body"], env, 1, lines)
     return "\n".join(lines) + "\n", env
+
+
+def else_reads_widened_var(prog, extra_env=None):
+    """True if some if-statement's else-branch reads an integer variable that the
+    then-branch re-assigns with a wider type (known finding C01-K1)."""
+    r = Renderer(False)
+    env = {a[0]: a[1] for a in prog["args"]}
+    if extra_env:
+        env.update(extra_env)
+    try:
+        r.stmts(prog["body"], env, 1, [])
+    except GenTypeError:
+        return False
+    return r.else_reads_widened
 
 
 def render_lib(prog, extra_env=None):
@@ -665,6 +702,8 @@ class G:
         self.hidden = set()
         self.pyint = set()  # variables that may hold a plain python int (constants, loop counters)
         self.muls = 0
+        self.fns = {}  # callable compiled functions: name -> (formal types, return type)
+        self.ncalls = 0
 
     def names_of(self, pred):
         return [n for n, t in self.env.items() if not n.startswith("fn:") and pred(t)]
@@ -690,6 +729,33 @@ class G:
             if not n.startswith("fn:") and not n.startswith("const:") and n not in self.hidden:
                 walk(["v", n], t, 0)
         return out
+
+    def call_args(self, formals):
+        """arguments for a call: variables / tuple elements of exactly the formal type
+        (bool formals may also take any boolean expression)"""
+        args = []
+        for ft in formals:
+            fte = expand(ft) if is_tuple(ft) else ft
+            ps = [p_ for p_ in self.paths(lambda t: (expand(t) if is_tuple(t) else t) == fte) if _root(p_) not in self.pyint]
+            if fte == BOOL and (not ps or self.chance(25)):
+                args.append(self.gen_bool(1))
+            elif ps:
+                args.append(self.pick(ps))
+            else:
+                return None
+        return args
+
+    def gen_call(self, pred):
+        """a call of a known function whose return type satisfies pred, or None"""
+        cands = [n for n, (fts, rt) in self.fns.items() if pred(expand(rt) if is_tuple(rt) else rt)]
+        if not cands:
+            return None
+        fn = self.pick(cands)
+        args = self.call_args(self.fns[fn][0])
+        if args is None:
+            return None
+        self.ncalls += 1
+        return ["call", fn, args]
 
     def bool_leaf(self):
         ps = self.paths(lambda t: t == BOOL)
@@ -739,7 +805,17 @@ class G:
         tup_bools_v = [p_ for p_ in tup_bools if p_[0] == "v"]
         if cfg.use_vidx and tup_bools_v and self.paths(is_int):
             opts += ["vidx"]
+        if self.fns:
+            opts += ["fcall"] * 4
         k = self.pick(opts)
+        if k == "fcall":
+            c = self.gen_call(lambda t: t == BOOL)
+            if c is not None:
+                return c
+            c = self.gen_call(is_int)
+            if c is not None:
+                return ["cmp", self.pick(["==", "!=", "<", ">="]), c, self.int_leaf()]
+            return self.bool_leaf()
         if k == "leaf":
             return self.bool_leaf()
         if k == "not":
@@ -794,7 +870,7 @@ class G:
         return self.pick(cands) if cands else ["k", 0]
 
     def gen_int(self, d):  # noqa: C901
-        if d <= 0 or not self.paths(is_int):
+        if d <= 0 or (not self.paths(is_int) and not self.fns):
             return self.int_leaf()
         cfg = self.cfg
         opts = ["leaf", "add", "add", "sub", "sub", "mul", "band", "bor", "bxor", "shl", "shr", "inv", "ife", "mod"]
@@ -809,7 +885,12 @@ class G:
             opts += ["vidx_const"]
             if [p_ for p_ in self.paths(lambda t: is_tuple(t) and all(is_int(x) for x in elem_types(t))) if p_[0] == "v"]:
                 opts += ["vidx"]
+        if self.fns:
+            opts += ["fcall"] * 4
         k = self.pick(opts)
+        if k == "fcall":
+            c = self.gen_call(is_int)
+            return c if c is not None else self.int_leaf()
         if k == "leaf":
             return self.int_leaf()
         if k == "mul":
@@ -918,7 +999,11 @@ class G:
             return self.gen_char(d)
         if t0[0] == "fixed":
             return self.gen_fixed(d, t0)
-        # tuple: literal of element expressions, or a variable of exactly that type
+        # tuple: a call returning it, a literal of element expressions, or a variable of exactly that type
+        if self.fns and self.chance(50):
+            c = self.gen_call(lambda t: t == t0)
+            if c is not None:
+                return c
         same = [p for p in self.paths(is_tuple) if expand(Renderer(False).expr(p, self.env)[1]) == t0]
         if same and self.chance(35):
             return self.pick(same)
@@ -954,7 +1039,7 @@ def _typeof(e, env):
 
 
 @st.composite
-def program(draw, cfg=None, ret=None, name="f", args=None):  # noqa: C901
+def program(draw, cfg=None, ret=None, name="f", args=None, fns=None):  # noqa: C901
     cfg = cfg or Cfg()
     if args is None:
         nargs = draw(st.integers(1, cfg.max_args))
@@ -968,6 +1053,9 @@ def program(draw, cfg=None, ret=None, name="f", args=None):  # noqa: C901
             args.append([NAMES[i], t])
     env = {a[0]: a[1] for a in args}
     g = G(draw, cfg, env)
+    for fn_name, (fts, rt) in (fns or {}).items():
+        g.fns[fn_name] = (fts, rt)
+        env["fn:" + fn_name] = rt
     d = cfg.depth
     loopvars = set()
 
@@ -1187,8 +1275,25 @@ def program(draw, cfg=None, ret=None, name="f", args=None):  # noqa: C901
         else:
             ret = BOOL
     e = g.gen(ret, d)
+    if g.fns and g.ncalls == 0:
+        # make sure a caller really calls
+        c = g.gen_call(lambda t: True)
+        if c is not None:
+            rt = g.fns[c[1]][1]
+            rte = expand(rt) if is_tuple(rt) else rt
+            if rte == BOOL and ret == BOOL:
+                e = ["bin", g.pick(["^", "&", "|"]), c, e]
+            elif rte == BOOL and is_int(ret):
+                e = ["ife", c, e, g.int_leaf()]
+            elif is_int(rte) and ret == BOOL:
+                e = ["bin", "^", ["cmp", g.pick(["==", "<", ">="]), c, g.int_leaf()], e]
+            elif is_int(rte) and is_int(ret):
+                e = ["bin", g.pick(["+", "-", "^", "&"]), c, e]
+            else:
+                ret = rt
+                e = c
     body.append(["return", e])
-    return {"name": name, "args": args, "ret": ret, "body": body}
+    return {"name": name, "args": args, "ret": ret, "body": body, "ncalls": g.ncalls}
 
 
 # ---------------------------------------------------------------- features
